@@ -35,11 +35,11 @@ def scale(profiles, k):
 
 Q01 = [("mailbox", 30000), ("backpressure", 8000), ("lifecycle", 8000), ("owning", 4000)]
 Q02 = [("mailbox", 16000), ("lifecycle", 16000), ("owning", 10000), ("backpressure", 4000), ("timeout", 6000)]
-Q03 = [("lifecycle", 24000), ("owning", 8000), ("handles", 6000), ("mailbox", 4000), ("stream", 8000), ("restart", 6000)]
+Q03 = [("lifecycle", 24000), ("owning", 8000), ("handles", 6000), ("mailbox", 4000), ("stream", 8000), ("restart", 6000), ("timeout", 6000)]
 Q04 = [("lifecycle", 30000), ("owning", 12000), ("mailbox", 6000), ("backpressure", 4000), ("timeout", 8000)]
 Q05 = [("handles", 24000), ("lifecycle", 12000), ("owning", 6000), ("mailbox", 4000), ("broker", 8000), ("stream", 6000), ("timers", 6000)]
 Q12 = [("backpressure", 30000), ("mailbox", 10000), ("lifecycle", 4000)]
-Q17 = [("owning", 30000), ("lifecycle", 10000), ("mailbox", 4000)]
+Q17 = [("owning", 30000), ("lifecycle", 10000), ("mailbox", 4000), ("timeout", 8000)]
 
 Q07 = [("restart", 30000), ("lifecycle", 12000), ("kinds", 4000)]
 Q10 = [("timers", 30000), ("restart", 6000), ("handles", 6000), ("kinds", 6000), ("lifecycle", 4000)]
@@ -79,7 +79,7 @@ PLANS = {
                 ["C12.R1.send_returned", "C12.R2.send_resolves", "C12.R3.unbounded_never_waits", "C12.R4.stop_while_full"]),
     "C17": plan(Q17, scale(Q17, 40),
                 "a join/consume yielded the actor, or an OwningAddr was detached",
-                ["C17.R1.join_after_stopped", "C17.R1.first_join_result", "C17.R2.final_state", "C17.R3.at_most_once", "C17.R4.join_resolves",
+                ["C17.R1.join_after_stopped", "C17.R1.first_join_result", "C17.R2.final_state", "C17.R3.at_most_once", "C17.R3.unpolled_join_takes_nothing", "C17.R4.join_resolves",
                  "C17.R6.detach_keeps_running"]),
     "C07": plan(Q07, scale(Q07, 40),
                 "at least one restart request (Addr::restart or Context::restart) was accepted",
